@@ -21,13 +21,13 @@ TabDepr   == TLCEval([f \in TabFeat |-> Tab.depr[f]])
 
 Bit(m, i) == (m \div (2 ^ (i - 1))) % 2 = 1
 NMask     == 2 ^ TabNF
-SetOfMask == TLCEval([m \in 0..(NMask - 1) |-> ({i \in TabFeat : Bit(m, i)})])
+SetOfMask == TLCEval([m \in 0..(NMask - 1) |-> {i \in TabFeat : Bit(m, i)}])
 RECURSIVE MaskOf(_)
 MaskOf(F) == IF F = {} THEN 0 ELSE LET i == CHOOSE i \in F : TRUE IN 2 ^ (i - 1) + MaskOf(F \ {i})
 SeqSet(s) == {s[i] : i \in DOMAIN s}
 
-TabUp    == TLCEval([v \in 1..(TabLatest - 1) |-> ([F \in SUBSET TabFeat |-> (SeqSet(Tab.up[v][MaskOf(F) + 1]))])])
-TabUpOut == TLCEval([v \in 1..(TabLatest - 1) |-> ([F \in SUBSET TabFeat |-> Tab.upx[v][MaskOf(F) + 1]])])
+TabUp    == TLCEval([v \in 1..(TabLatest - 1) |-> [F \in SUBSET TabFeat |-> SeqSet(Tab.up[v][MaskOf(F) + 1])]])
+TabUpOut == TLCEval([v \in 1..(TabLatest - 1) |-> [F \in SUBSET TabFeat |-> Tab.upx[v][MaskOf(F) + 1]]])
 
 \* shape of the file (a malformed file is a machinery failure, not a verdict)
 ASSUME /\ TabNF \in 1..12 /\ TabLatest \in 1..8
